@@ -72,9 +72,12 @@ def zero [OfNat α 0] : V3 α := ⟨0, 0, 0⟩
 
 end V3
 
+/-- Go's `==` on `Coord3D` values (field by field). -/
+def V3.beq {α : Type} [BEq α] (a b : V3 α) : Bool := a.x == b.x && a.y == b.y && a.z == b.z
+
 /-- `c.Min(min) == min && c.Max(max) == max` (`InBounds`, `CheckedFuncSolid`). -/
-def inBounds {α : Type} [LE α] [DecidableLE α] [DecidableEq α] (c lo hi : V3 α) : Bool :=
-  decide (c.min lo = lo) && decide (c.max hi = hi)
+def inBounds {α : Type} [LE α] [DecidableLE α] [BEq α] (c lo hi : V3 α) : Bool :=
+  (c.min lo).beq lo && (c.max hi).beq hi
 
 /-! ## `Matrix3` (row-major) -/
 
@@ -134,6 +137,39 @@ def one [OfNat α 0] [OfNat α 1] : M3 α := ⟨1, 0, 0, 0, 1, 0, 0, 0, 1⟩
 
 end M3
 
+/-! ## Rotations (`NewMatrix3Rotation`, `Coord3D.OrthoBasis`) with `(c, s) = (math.Cos θ, math.Sin θ)` as inputs -/
+
+/-- `Coord3D.OrthoBasis` (`sqrtF` = `math.Sqrt`). -/
+def orthoBasis {α : Type} [Add α] [Sub α] [Mul α] [Div α] [Neg α] [OfNat α 0] [OfNat α 1]
+    [LE α] [DecidableLE α] [LT α] [DecidableLT α] (sqrtF : α → α) (c : V3 α) : V3 α × V3 α :=
+  let ax := absS c.x
+  let ay := absS c.y
+  let az := absS c.z
+  let b1 : V3 α :=
+    if ay < ax ∧ az < ax then ⟨c.y / ax, (-c.x) / ax, 0⟩
+    else
+      let k := if az < ay then ay else az
+      ⟨0, c.z / k, (-c.y) / k⟩
+  let b2 : V3 α := ⟨b1.y * c.z - b1.z * c.y, b1.z * c.x - b1.x * c.z, b1.x * c.y - b1.y * c.x⟩
+  (b1.normalize sqrtF, b2.normalize sqrtF)
+
+/-- `NewMatrix3Columns` -/
+def M3.ofColumns {α : Type} (c1 c2 c3 : V3 α) : M3 α :=
+  ⟨c1.x, c2.x, c3.x, c1.y, c2.y, c3.y, c1.z, c2.z, c3.z⟩
+
+/-- the middle factor of `NewMatrix3Rotation` -/
+def rotX {α : Type} [Neg α] [OfNat α 0] [OfNat α 1] (c s : α) : M3 α := ⟨1, 0, 0, 0, c, s, 0, -s, c⟩
+
+/-- `basis.Mul(rotation).Mul(basis.Transpose())` for an arbitrary basis -/
+def rotationIn {α : Type} [Add α] [Mul α] [Neg α] [OfNat α 0] [OfNat α 1] (a b1 b2 : V3 α) (c s : α) : M3 α :=
+  ((M3.ofColumns a b1 b2).mul (rotX c s)).mul (M3.ofColumns a b1 b2).transpose
+
+/-- `NewMatrix3Rotation(axis, θ)` with `c = math.Cos θ`, `s = math.Sin θ`. -/
+def rotation3 {α : Type} [Add α] [Sub α] [Mul α] [Div α] [Neg α] [OfNat α 0] [OfNat α 1]
+    [LE α] [DecidableLE α] [LT α] [DecidableLT α] (sqrtF : α → α) (axis : V3 α) (c s : α) : M3 α :=
+  let b := orthoBasis sqrtF axis
+  rotationIn axis b.1 b.2 c s
+
 /-! ## `model2d.Coord`, `Matrix2` (row-major) -/
 
 @[ext] structure V2 (α : Type) where
@@ -170,6 +206,8 @@ def mul [Add α] [Mul α] (m n : M2 α) : M2 α :=
 /-- `Matrix2.Transpose` -/
 def transpose (m : M2 α) : M2 α := ⟨m.a0, m.a2, m.a1, m.a3⟩
 def one [OfNat α 0] [OfNat α 1] : M2 α := ⟨1, 0, 0, 1⟩
+/-- `NewMatrix2Rotation(θ)` with `c = math.Cos θ`, `s = math.Sin θ`. -/
+def rotation [Neg α] (c s : α) : M2 α := ⟨c, -s, s, c⟩
 /-- The 3×3 matrix acting as `m` on the first two coordinates and fixing the third: the 2-D instance of
 the transform template is the 3-D one on the plane `z = 0`. -/
 def embed [OfNat α 0] [OfNat α 1] (m : M2 α) : M3 α := ⟨m.a0, m.a1, 0, m.a2, m.a3, 0, 0, 0, 1⟩
@@ -361,7 +399,7 @@ variable {α : Type} [Add α] [Sub α] [Mul α] [Div α] [Neg α] [OfNat α 0] [
   [LT α] [DecidableLT α] [LE α] [DecidableLE α]
 
 /-- `TransformSolid` (through `CheckedFuncSolid`). -/
-def transformSolid [DecidableEq α] (t : Xf α) (s : Solid α) : Solid α :=
+def transformSolid [BEq α] (t : Xf α) (s : Solid α) : Solid α :=
   let inv := t.inverse
   let b := t.applyBounds s.lo s.hi
   { lo := b.1, hi := b.2, contains := fun c => inBounds c b.1 b.2 && s.contains (inv.apply c) }
@@ -424,7 +462,7 @@ def vecScaleMetaball (m : Metaball α) (scale : V3 α) : Metaball α :=
 
 /-- `MarchingCubesConj`'s solid: `TransformSolid(JoinedTransform(xforms), s)`; the mesh is mapped back
 vertex by vertex through `joined.Inverse()` (`Mesh.Transform` = `MapCoords(Apply)`). -/
-def conjSolid [DecidableEq α] (t : Xf α) (s : Solid α) : Solid α := transformSolid t s
+def conjSolid [BEq α] (t : Xf α) (s : Solid α) : Solid α := transformSolid t s
 def conjBack (t : Xf α) (v : V3 α) : V3 α := t.inverse.apply v
 
 end Wrapped
